@@ -378,7 +378,7 @@ async fn run_cycle(dir: &Path, scratch: &Path, rng: &mut Rng, sum: &mut Summary,
     let mgr = Mgr::new(config(dir, rng.below(4))).await.ok()?;
     // crash points inside the open (key creation, torn-tail repair): reopening must give what the
     // crash copy this cycle started from gave
-    let open_points: Vec<Point> = { let mut g = COLL.lock().unwrap(); let c = g.as_mut().unwrap(); c.opening = false; std::mem::take(&mut c.points) };
+    let open_points: Vec<Point> = { let mut g = COLL.lock().unwrap(); let c = g.as_mut().unwrap(); c.opening = false; c.record = false; std::mem::take(&mut c.points) };
     for p in open_points {
         let what = json!({"cycle": cyc, "during_open": p.label});
         let (ls, _) = listing(&p.dir);
@@ -489,7 +489,7 @@ async fn mode_c06(args: &Args, sum: &mut Summary) {
                 // force rotation: > MAX_WAL_ENTRIES writes (two rotations inside one second in variant 1),
                 // then a checkpoint, a few more writes; probes only around the interesting steps
                 let variant = (h - nsmall) % 3;
-                let n = match (variant, cyc) { (1, 0) => 2004, (_, 0) => 1003, _ => 8 };
+                let n = match (variant, cyc) { (1, 0) => 2070, (_, 0) => 1040, _ => 8 };
                 Plan { nops: n + 4, nkeys: 24, trunc: true, all_trunc: false,
                     kinds: Box::new(move |rng, i| if i == n { 10 } else if i == n + 2 && variant == 2 { 10 } else { match rng.below(10) { 0..=7 => 0, 8 => 6, _ => 8 } }),
                     rec: Box::new(move |i, nw| i < 2 || (nw % 1000 >= 998 || nw % 1000 <= 1) || i >= n), next_pick: Some(|p| p.len() - 1) }
